@@ -150,6 +150,16 @@ impl Context<'_> {
         let mut by_id: Option<ElementId> = None;
 
         let historical = self.is_historical();
+        // A caller some of whose reads are masked gets no index push-down for
+        // a member a mask can hide. The index answers from the stored row, so
+        // it would decide which candidates are *loaded* by content this caller
+        // may not see, and a candidate the re-check below then drops has
+        // already left its trace — the `max_results` its Grant carries was
+        // folded into this read's cap, so `{mode: "stated"}` answered one row
+        // plus a cursor where an Assertion had that mode and every row where
+        // none did. Such a constraint is decided against the redacted view of
+        // every element of the kind instead, exactly as at a past coordinate.
+        let masked_reader = self.authority.carries_field_mask();
         // A concrete `id` skips the index altogether, so nothing pushed into
         // `filters` would ever be asked of it.
         let names_id = matcher.iter().any(|(key, value)| {
@@ -168,7 +178,9 @@ impl Context<'_> {
             // local type name would be compared against the exact symbol it
             // resolves to and never match. A key with no index is compared as
             // written, exactly as the index path compares it.
-            if (historical || names_id) && !matches!(column_of(kind, key), Some("__id")) {
+            if (historical || names_id || (masked_reader && is_maskable_key(kind, key)))
+                && !matches!(column_of(kind, key), Some("__id"))
+            {
                 let slot = match (slot, column_of(kind, key)) {
                     (Slot::Value(value), Some(_)) => {
                         Slot::Value(Json::String(self.matcher_text(kind, key, &value)?))
